@@ -67,6 +67,7 @@ char *a_str_exit(a_str *ctx)
 int a_str_setm_(a_str *ctx, a_size mem)
 {
     char *ptr;
+    if (mem > a_size_down(sizeof(void *), A_SIZE_MAX)) { return A_OMEMORY; } /* rounding up would wrap to 0 */
     mem = a_size_up(sizeof(void *), mem);
     ptr = (char *)a_alloc(ctx->ptr_, mem);
     if (ptr || mem == 0)
